@@ -80,6 +80,7 @@ func (f *File) Apply(filename string, src []byte) (_ []byte, err error) {
 		vhook.Gate("diff")
 		snap = snap.Diff(fout, cl)
 		cleanupFilePos(f.fset.File(fout.Pos()), cl, fout.Comments)
+		fout.Comments = nonEmptyCommentGroups(fout.Comments)
 	}
 
 	if retErr != nil {
@@ -152,4 +153,18 @@ func cleanupFilePos(tfile *token.File, cl engine.Changelog, comments []*ast.Comm
 // ignoring //line directives. token.File.MergeLine counts those lines.
 func physicalLine(tfile *token.File, pos token.Pos) int {
 	return tfile.PositionFor(pos, false).Line
+}
+
+// nonEmptyCommentGroups returns the comment groups that still hold a comment.
+// cleanupFilePos empties the groups that lie in rewritten code; a group
+// without comments has no position, and the steps that follow (the next
+// change, the removal of an import) cannot deal with one.
+func nonEmptyCommentGroups(groups []*ast.CommentGroup) []*ast.CommentGroup {
+	kept := groups[:0:0]
+	for _, cg := range groups {
+		if len(cg.List) > 0 {
+			kept = append(kept, cg)
+		}
+	}
+	return kept
 }
